@@ -36,13 +36,26 @@ def strip_comments(src):
     return "".join(out)
 
 
+SECTION_LOCAL = re.compile(r"^\s*(Variable|Variables|Hypothesis|Hypotheses)\b")
+
+
 def audit_sources():
-    """Forbidden vernacular anywhere in the development (comments excluded)."""
+    """Forbidden vernacular in the files of the development (those listed in _CoqProject), comments excluded.
+    Variable / Hypothesis are allowed only inside a Section (where they are discharged at End)."""
     hits = []
-    for f in sorted(glob.glob(os.path.join(COQ, "**", "*.v"), recursive=True)):
+    listed = [l.strip() for l in open(os.path.join(COQ, "_CoqProject")) if l.strip().endswith(".v")]
+    for rel in listed:
+        f = os.path.join(COQ, rel)
         src = strip_comments(open(f).read())
+        depth = 0
         for n, line in enumerate(src.split("\n"), 1):
+            if re.match(r"^\s*Section\s+\w+\s*\.", line):
+                depth += 1
+            elif re.match(r"^\s*End\s+\w+\s*\.", line) and depth > 0:
+                depth -= 1
             if FORBIDDEN.search(line):
+                if depth > 0 and SECTION_LOCAL.match(line):
+                    continue
                 hits.append("%s:%d: %s" % (os.path.relpath(f, ROOT), n, line.strip()))
     proj = open(os.path.join(COQ, "_CoqProject")).read()
     if re.search(r"type-in-type|impredicative-set|-vos|-vok|bypass", proj):
